@@ -25,6 +25,11 @@ type SearchOptions struct {
 	UseFuzzy       bool               `json:"use_fuzzy,omitempty"`
 	FuzzyThreshold int                `json:"fuzzy_threshold,omitempty"`
 	UseNLP         bool               `json:"use_nlp,omitempty"`
+	// Every option that can change the answer must be part of the key
+	TopTermsCap     int      `json:"top_terms_cap,omitempty"`
+	AllPlatforms    bool     `json:"all_platforms,omitempty"`
+	Platforms       []string `json:"platforms,omitempty"`
+	NoCrossPlatform bool     `json:"no_cross_platform,omitempty"`
 }
 
 // SearchCache provides caching for search results
